@@ -40,8 +40,16 @@ def c12_oracle(case, obs):
     pending = {h: set() for h in range(n)}           # connect futures still held and unresolved
     rst_seen = False
     loop_used = False
+    bg_by_step = {}
+    for b in obs.get("bg", []):
+        bg_by_step.setdefault(b[0], []).append(b)
+    bg_lid = {}
     for k, st in enumerate(case["steps"]):
         links, counts = obs["post"][k]
+        for h in range(n):
+            for i, cmd in enumerate(st.get("hosts", {}).get(str(h), [])):
+                if cmd[0] == "accept_bg":
+                    bg_lid[(h, cmd[2])] = cmd[1]
         for h in range(n):
             for i, cmd in enumerate(st.get("hosts", {}).get(str(h), [])):
                 r = res.get((k, h, i))
@@ -90,6 +98,11 @@ def c12_oracle(case, obs):
                     if r[1] > limit:
                         out.append(("host %d counts %d established streams at step %d but holds only %d streams and %d "
                                     "pending connects" % (h, r[1], k, len(live_streams[h]), len(pending[h])), None))
+        for b in bg_by_step.get(k, []):           # parked accepts that completed in this step
+            if ok(b[3], 4):
+                accepts.append({"step": k, "idx": 999, "host": b[1], "lid": bg_lid.get((b[1], b[2])), "sid": b[2],
+                                "local": b[3][1], "peer": b[3][2]})
+                live_streams[b[1]].add(b[2])
         for a, b, msgs in links:
             if any(m[1] == "rst" for m in msgs):
                 rst_seen = True
@@ -209,18 +222,35 @@ def c12_oracle(case, obs):
                 if first != ["err", "ConnectionRefused"]:
                     out.append(("connect %d from host %d to host %d across a partitioned direction returned %s instead "
                                 "of ConnectionRefused" % (cid, c["host"], d, first), None))
+    # a partition imposed on the SYN's direction while the SYN is still on the link (in flight or
+    # parked by a hold) drops it: it must leave the link and the connect must be refused
+    part_events = []            # (step, src, dst) directions cut by a controller action of that step
+    for k, st in enumerate(case["steps"]):
+        for act in st["ctl"]:
+            if act[0] == "partition":
+                part_events += [(k, act[1], act[2]), (k, act[2], act[1])]
+            elif act[0] == "partition_oneway":
+                part_events.append((k, act[1], act[2]))
     for cid, sy in syn_of.items():
         src, sport, dport, a, b, k0 = sy
         c = conn[cid]
-        # the SYN was still on the link when its direction was partitioned: it is dropped
-        last = syn_seen.get((src, sport, dport, a, b))
         dst = b if src == a else a
-        if last is not None and last + 1 < len(obs["post"]) and (src, dst) in cut_at.get(last + 1, set()) \
-                and (src, dst) not in cut_at.get(last, set()):
-            later = [(k, r) for (k, r) in c["results"] if k > last + 1]
+        key = [src, "syn", 0, 0, sport, dport]
+
+        def on_link(k):
+            return any(list(m) == key for (a2, b2, msgs) in obs["post"][k][0] if (a2, b2) == (a, b) for m in msgs)
+        for (p, ps, pd) in part_events:
+            if (ps, pd) != (src, dst) or p <= k0 or p >= len(obs["post"]) or not on_link(p - 1):
+                continue
+            if on_link(p):
+                out.append(("connect %d: its SYN (host %d port %d) was on the link when %d->%d was partitioned at "
+                            "step %d, but it is still there afterwards" % (cid, src, sport, src, dst, p), None))
+                break
+            later = [(k, r) for (k, r) in c["results"] if k > p]
             if later and later[0][1] == "pending":
-                out.append(("connect %d: its SYN was in flight when the direction %d->%d was partitioned at step %d, "
-                            "but it still pends at step %d" % (cid, src, dst, last + 1, later[0][0]), None))
+                out.append(("connect %d: its SYN was on the link when the direction %d->%d was partitioned at step %d, "
+                            "but it still pends at step %d" % (cid, src, dst, p, later[0][0]), None))
+                break
     # ---- listener dropped before accepting: refused ----------------------------------------------------
     for cid, sy in syn_of.items():
         src, sport, dport, a, b, k0 = sy
@@ -293,6 +323,42 @@ def c12_oracle(case, obs):
                     out.append(("connect %d (same host %d) was refused at step %d although listener %d is bound since "
                                 "step %d and is never dropped" % (cid, h, k, lid, l["from"]), None))
                     break
+    # ---- a task parked in accept() is woken when a request is queued ---------------------------------------
+    bg_issue = {}
+    for k, st in enumerate(case["steps"]):
+        for h in range(n):
+            for i, cmd in enumerate(st.get("hosts", {}).get(str(h), [])):
+                if cmd[0] == "accept_bg" and res.get((k, h, i)) == "none":
+                    bg_issue[(h, cmd[2])] = (k, cmd[1])
+    bg_done_at = {(b[1], b[2]): b[0] for b in obs.get("bg", [])}
+    for cid, sy in syn_of.items():
+        src, sport, dport, a, b, k0 = sy
+        c = conn[cid]
+        last = syn_seen.get((src, sport, dport, a, b))
+        if last is None or last + 1 >= len(obs["post"]) or parts.get((a, b)):
+            continue
+        arrive = last + 1
+        dst = b if src == a else a
+        inst = [(lid, l) for (h, lid), l in listeners.items()
+                if h == dst and l["port"] == dport and l["from"] < arrive and l["to"] is None and l["kind"] == "unspec"]
+        if len(inst) != 1:
+            continue
+        lid = inst[0][0]
+        taken = [x["step"] for x in accepts if x["host"] == dst and x["peer"] == [src, sport]]
+        if taken and min(taken) <= arrive:
+            continue                      # accepted in the step it arrived
+        if c["done"] is not None and not ok(c["done"][1], 3) and c["done"][0] <= arrive:
+            continue                      # the connector had given up by then
+        # the request is queued from step `arrive` on and nobody took it in that step: a task that was
+        # parked in accept() before must have been woken and must have taken it
+        for (h, sid), (ki, l2) in bg_issue.items():
+            if h == dst and l2 == lid and ki < arrive and arrive < len(obs["post"]) - 1 \
+                    and ((h, sid) not in bg_done_at or bg_done_at[(h, sid)] > arrive):
+                out.append(("a task is parked in accept() on listener %d of host %d since step %d; the request of connect "
+                            "%d (host %d port %d) was queued there in step %d, yet the task was not woken in that step "
+                            "(request accepted %s)" % (lid, dst, ki, cid, src, sport, arrive,
+                                                       "at step %d" % min(taken) if taken else "never"), None))
+                break
     # ---- exact table sizes while nothing can have been reset ---------------------------------------------
     if not loop_used:
         held_all = False
@@ -330,6 +396,9 @@ def c12_oracle(case, obs):
                         live2[h].add(cmd[2])
                     elif nm == "drop" and r == "none":
                         live2[h].discard(cmd[1])
+            for b in bg_by_step.get(k, []):
+                if ok(b[3], 4):
+                    live2[b[1]].add(b[2])
             if held_all and not dirty:
                 for h in range(n):
                     want = len(live2[h]) + len(pend2[h])
@@ -418,8 +487,12 @@ class Spec(PropSpec):
         cases = []
         for i in range(n):
             r = i % 10
-            if r < 4:
+            if r < 2:
                 cases.append(F.gen_handshake(ctx.rng))
+            elif r < 3:
+                cases.append(F.gen_parked_accepts(ctx.rng))
+            elif r < 4:
+                cases.append(F.gen_partition(ctx.rng))
             elif r < 5:
                 cases.append(F.gen_backlog(ctx.rng))
             elif r < 7:
